@@ -5,6 +5,8 @@ import (
 	"fmt"
 	"math/big"
 	"math/rand"
+	"reflect"
+	"sort"
 	"sync"
 
 	vmcommon "github.com/ElrondNetwork/elrond-vm-common"
@@ -130,6 +132,7 @@ type GasEnv struct {
 	CurK     int                               // schedule in force between rounds
 	CurFlag  bool                              // activation flags between rounds
 	Epoch    uint32
+	shared   *vmcommon.GasCost // the ONE object a caller of the public API rewrites in place and pushes with SetNewGasConfig (Reprice, direct)
 }
 
 func build(k int) (gasFactory, vmcommon.BuiltInFunctionContainer, *world.Notifier, error) {
@@ -246,6 +249,39 @@ func NewGasEnv() (*GasEnv, error) {
 		e.Tok = append(e.Tok, tok)
 	}
 	return e, nil
+}
+
+// Reprice installs schedule k: the way the node does it (factory.GasScheduleChange: a fresh GasCost object per change) or the way any
+// other caller of the public API may - ONE GasCost object, rewritten in place and then handed to every function with SetNewGasConfig.
+// The object belongs to the caller: a function has to copy what it needs while it holds its lock.
+func (e *GasEnv) Reprice(k int, direct bool) {
+	if !direct {
+		e.Factory.GasScheduleChange(Schedule(k))
+		return
+	}
+	if e.shared == nil {
+		e.shared = &vmcommon.GasCost{}
+	}
+	sched := Schedule(k)
+	fill := func(v reflect.Value, m map[string]uint64) {
+		for name, x := range m {
+			if f := v.FieldByName(name); f.IsValid() && f.CanSet() {
+				f.SetUint(x)
+			}
+		}
+	}
+	fill(reflect.ValueOf(&e.shared.BuiltInCost).Elem(), sched["BuiltInCost"])
+	fill(reflect.ValueOf(&e.shared.BaseOperationCost).Elem(), sched["BaseOperationCost"])
+	names := make([]string, 0, 32)
+	for n := range e.Cont.Keys() {
+		names = append(names, n)
+	}
+	sort.Strings(names)
+	for _, n := range names {
+		if fn, err := e.Cont.Get(n); err == nil {
+			fn.SetNewGasConfig(e.shared)
+		}
+	}
 }
 
 // gasCall is one planned execution.
@@ -453,9 +489,9 @@ func (e *GasEnv) GasRound(r *rand.Rand, no *int) ([]*Round, error) {
 			nk = 1 + r.Intn(MaxK)
 		}
 		k = nk
-		sched := Schedule(nk)
+		direct := r.Intn(3) == 0
 		steps[nexec] = append(steps[nexec], Step{Name: "reprice", Args: map[string]interface{}{"k": nk, "m": 0, "n": 0},
-			Do: func() interface{} { e.Factory.GasScheduleChange(sched); return 0 }, Yield: r.Intn(2) == 0, Spin: r.Intn(6000)})
+			Do: func() interface{} { e.Reprice(nk, direct); return 0 }, Yield: r.Intn(2) == 0, Spin: r.Intn(6000)})
 	}
 	lastK := k
 	flag := e.CurFlag
